@@ -278,6 +278,73 @@ theorem C16_outline_recorded (tbl : Table) (cfg : TagCfg) (hok : TagStatesOk tbl
       · rw [hrun fuel, heq]; rfl
       · simp [applyTrans, hrc, hrsim, hrsink, a1, hrl]
 
+/-- In HTML content with the ambiguity guard off and no feedback directive pending, the simulator never
+refuses a start tag: with the recording sink `emit_tag` does not signal. -/
+theorem lexEmitTag_rec_html (tbl : Table) (cfg : TagCfg) (inp : Bytes) (c : Common) (l : LexRegs) (x : Ctx (List Lexeme))
+    {n : Range} {h : Nat} {ns0 : Ns} {as : List AttrOutline} {sc : Bool}
+    (hct : l.curTag = some (.startTag n h ns0 as sc)) (hs : x.sim.strict = false) (hn : x.sim.currentNs = .html)
+    (hfd : l.fd = .none) : (lexEmitTag ⟨tbl, cfg, recOps⟩ inp c l x).2 = none := by
+  unfold lexEmitTag
+  rw [hct]
+  simp only [hfd, lexGetFeedback, Sim.feedbackForStartTag, hs, Bool.false_eq_true, if_false, hn]
+  by_cases h1 : h = cfg.svg
+  · simp [h1, Except.map, Sim.enterNs, lexHandleFeedback, lexStampTag, lexEmitTagLexeme, recOps]
+  · by_cases h2 : h = cfg.math
+    · subst h2
+      simp [h1, Except.map, Sim.enterNs, lexHandleFeedback, lexStampTag, lexEmitTagLexeme, recOps]
+    · have htta : (∃ t, textTypeAdjustment cfg h = .switchTextType t) ∨ textTypeAdjustment cfg h = .none := by
+        unfold textTypeAdjustment
+        (repeat' split) <;> first | exact Or.inl ⟨_, rfl⟩ | exact Or.inr rfl
+      rcases htta with ⟨t, ht⟩ | ht <;>
+        simp [h1, h2, ht, Except.map, lexHandleFeedback, lexStampTag, lexEmitTagLexeme, recOps]
+
+/-- **C16_outline_recorded_html.** From a machine whose simulator is in HTML content with the ambiguity guard off
+and no feedback directive pending (e.g. the lexer of a fresh non-strict parser): the tag lexeme IS recorded — the
+"simulator refused" alternative of `C16_outline_recorded` cannot occur. -/
+theorem C16_outline_recorded_html (tbl : Table) (cfg : TagCfg) (hok : TagStatesOk tbl = true) (inp : Bytes) (i : Nat)
+    (m : M (List Lexeme)) (hm : AtTagStart tbl m i) (t : Tag) (hspec : startTagAt inp i = some (.finished t))
+    (hs : m.x.sim.strict = false) (hn : m.x.sim.currentNs = .html) (hfd : ∀ l, m.r = .lexer l → l.fd = .none) :
+    ∃ k, k < 2 * (t.stop - i) ∧
+      ∃ m' : M (List Lexeme), (∀ fuel, runLoop ⟨tbl, cfg, recOps⟩ inp (k + 1 + fuel) m = runLoop ⟨tbl, cfg, recOps⟩ inp fuel m') ∧
+        m'.x.sink = m.x.sink ++ [.tag ⟨m.x.prevConsumed, ⟨i, t.stop⟩,
+          .startTag t.name (NameHash.ofBytes (slice inp t.name.start t.name.end)) m'.x.sim.currentNs t.attrs t.selfClosing⟩] ∧
+        m'.c.nextPos = t.stop ∧ m'.c.entered = false ∧
+        (m'.c.state = tbl.textState m'.c.lastTextType ∨ m'.c.state = tbl.dataState) ∧
+        (∃ l, m'.r = .lexer l ∧ l.lexemeStart = t.stop ∧ l.curTag = none) := by
+  -- the same `k` and registers as in `C16_outline`; `emit_tag` on them does not signal
+  obtain ⟨k, cJ, lJ, tr, hk, hregs, htr, hrun⟩ := C16_outline ⟨tbl, cfg, recOps⟩ hok inp i m hm t hspec
+  obtain ⟨l0, hl0, _⟩ := hm.lexer
+  have hfdJ : lJ.fd = .none := by rw [(hregs.fd l0 hl0).1]; exact hfd l0 hl0
+  have hnone := lexEmitTag_rec_html tbl cfg inp cJ lJ m.x hregs.curTag hs hn hfdJ
+  rcases C16_emit_tag ⟨tbl, cfg, recOps⟩ inp m i t cJ lJ hregs (by omega) with ⟨e, m', heq, _⟩ | ⟨c', sim', a1, _, _, heq⟩
+  · rw [heq] at hnone; simp at hnone
+  · refine ⟨k, hk, ?_⟩
+    generalize hr : lexEmitTagLexeme ⟨tbl, cfg, recOps⟩ inp c' { lJ with curTag := none, fd := .none } m.x sim'
+        (.startTag t.name (NameHash.ofBytes (slice inp t.name.start t.name.end)) sim'.currentNs t.attrs t.selfClosing) t.stop
+        = r at heq
+    have hr2 : r.2 = none := by rw [← hr]; simp [lexEmitTagLexeme, recOps]
+    have hrc : r.1.c = c' := by rw [← hr]; simp [lexEmitTagLexeme, recOps]
+    have hrsim : r.1.x.sim = sim' := by rw [← hr]; simp [lexEmitTagLexeme, recOps]
+    have hrsink : r.1.x.sink = m.x.sink ++ [.tag ⟨m.x.prevConsumed, ⟨i, t.stop⟩,
+        .startTag t.name (NameHash.ofBytes (slice inp t.name.start t.name.end)) sim'.currentNs t.attrs t.selfClosing⟩] := by
+      rw [← hr]; simp [lexEmitTagLexeme, recOps, hregs.lexemeStart]
+    have hrl : ∃ l, r.1.r = .lexer l ∧ l.lexemeStart = t.stop ∧ l.curTag = none := by
+      rw [← hr]; exact ⟨_, rfl, rfl, rfl⟩
+    obtain ⟨rm, rs⟩ := r
+    simp only at hr2 hrc hrsim hrsink hrl
+    subst hr2
+    have htr' : tr = .gotoDyn ∨ tr = .goto tbl.dataState := by
+      rcases htr with h | h
+      · exact Or.inl h
+      · rw [h]; exact trans36_cases tbl
+    rcases htr' with rfl | rfl
+    · refine ⟨(applyTrans ⟨tbl, cfg, recOps⟩ .gotoDyn rm).1, fun fuel => ?_, ?_⟩
+      · rw [hrun fuel, heq]; rfl
+      · simp [applyTrans, hrc, hrsim, hrsink, a1, hrl]
+    · refine ⟨(applyTrans ⟨tbl, cfg, recOps⟩ (.goto tbl.dataState) rm).1, fun fuel => ?_, ?_⟩
+      · rw [hrun fuel, heq]; rfl
+      · simp [applyTrans, hrc, hrsim, hrsink, a1, hrl]
+
 /-- **C16_outline_unfinished_recorded.** With the recording sink: if the spec says the tag is unfinished,
 the run to the end of the input records no tag lexeme — at most the raw remainder `[i, |inp|)` without a
 token and the EOF lexeme (last chunk), or nothing at all (more input may come). -/
